@@ -259,23 +259,25 @@ impl Disconnect {
         }
     }
 
+    /// Reason code and property length are omitted for a normal disconnection
+    /// without properties
+    fn is_short(&self) -> bool {
+        self.reason_code == DisconnectReasonCode::NormalDisconnection && self.properties.is_none()
+    }
+
     fn len(&self) -> usize {
-        if self.reason_code == DisconnectReasonCode::NormalDisconnection
-            && self.properties.is_none()
-        {
+        if self.is_short() {
             return 2; // Packet type + 0x00
         }
 
-        let mut length = 0;
+        let mut length = 1; // Disconnect Reason Code
 
         if let Some(properties) = &self.properties {
-            length += 1; // Disconnect Reason Code
-
             let properties_len = properties.len();
             let properties_len_len = len_len(properties_len);
             length += properties_len_len + properties_len;
         } else {
-            length += 1;
+            length += 1; // Property length 0
         }
 
         length
@@ -283,7 +285,7 @@ impl Disconnect {
 
     pub fn size(&self) -> usize {
         let len = self.len();
-        if len == 2 {
+        if self.is_short() {
             return len;
         }
 
@@ -325,7 +327,7 @@ impl Disconnect {
 
         let length = self.len();
 
-        if length == 2 {
+        if self.is_short() {
             buffer.put_u8(0x00);
             return Ok(length);
         }
